@@ -41,10 +41,11 @@ enum OpKind : uint8_t {
   OP_REGION_ENTER,
   OP_REGION_LEAVE,
   OP_SELF_ASSIGN,
+  OP_MOVECTOR, // appended last: replay files store the index chosen, so earlier kinds keep their meaning
   OP_NKINDS
 };
 const char* const op_names[OP_NKINDS] = {"nop", "publish",  "unlink", "acquire", "acquire_if_equal", "load",         "use",          "copy",       "move",
-                                         "swap",     "reset",  "copyctor", "guard_from_marked", "region_enter", "region_leave", "self_assign"};
+                                         "swap",     "reset",  "copyctor", "guard_from_marked", "region_enter", "region_leave", "self_assign", "movector"};
 
 struct Op {
   uint8_t kind, a, b, c;
@@ -420,6 +421,29 @@ struct Client {
           gm[op.b] = gm[op.a];
           break;
         }
+        case OP_MOVECTOR: {
+          vrt::op_begin(1);
+          {
+            OpScope os;
+            if (op.a != op.b) {
+              {
+                GPtr t(std::move(g[op.a]));
+                if (g[op.a].get() != nullptr) vrt::fail("move_leaves_source", "guard is not empty after another guard has been move-constructed from it");
+                reg(NG, t);
+                unreg(op.a);
+                t.swap(g[op.b]);
+                int x = R.guard[me][NG];
+                R.guard[me][NG] = R.guard[me][op.b];
+                R.guard[me][op.b] = x;
+                unreg(NG); // t (the previous content of the target) is released at the end of this scope
+              }
+              gm[op.b] = gm[op.a];
+              gm[op.a] = GM{};
+            }
+          }
+          vrt::op_end();
+          break;
+        }
         case OP_FROM_MARKED: {
           // guard constructed from a marked_ptr: only for an object this thread has just allocated and not yet
           // published (the documentation promises protection only through acquire / acquire_if_equal / copies;
@@ -468,8 +492,8 @@ struct Client {
   }
 
   void gen_program(int p, bool is_main_prefix) {
-    static const uint32_t w_c01[OP_NKINDS] = {40, 22, 8, 18, 6, 6, 16, 4, 3, 2, 6, 2, 2, 3, 3, 1};
-    static const uint32_t w_c02[OP_NKINDS] = {35, 34, 12, 10, 3, 3, 6, 2, 2, 1, 5, 1, 1, 3, 3, 1};
+    static const uint32_t w_c01[OP_NKINDS] = {40, 22, 8, 18, 6, 6, 16, 4, 3, 2, 6, 2, 2, 3, 3, 1, 2};
+    static const uint32_t w_c02[OP_NKINDS] = {35, 34, 12, 10, 3, 3, 6, 2, 2, 1, 5, 1, 1, 3, 3, 1, 1};
     static const uint32_t w_pre[2] = {1, 1};
     const uint32_t* w = (vh::prop_is("C02") || vh::prop_is("C17")) ? w_c02 : w_c01;
     int n = is_main_prefix ? 2 : MAXOPS; // fixed shape: absent operations are NOPs, so zeroing a choice removes one
@@ -481,7 +505,7 @@ struct Client {
       op.a = (uint8_t)vrt::choose((uint32_t)ncells);
       op.b = (uint8_t)vrt::choose((uint32_t)NG);
       op.c = (uint8_t)vrt::choose(2);
-      if (op.kind == OP_COPY || op.kind == OP_MOVE || op.kind == OP_SWAP || op.kind == OP_COPYCTOR || op.kind == OP_SELF_ASSIGN)
+      if (op.kind == OP_COPY || op.kind == OP_MOVE || op.kind == OP_SWAP || op.kind == OP_COPYCTOR || op.kind == OP_SELF_ASSIGN || op.kind == OP_MOVECTOR)
         op.a = (uint8_t)vrt::choose((uint32_t)NG);
       if (op.kind == OP_REGION_ENTER) {
         if (depth >= 3)
